@@ -2,10 +2,10 @@
 # developer aid (round 2): confirm a sub-agent seed in its worktree, then copy its deliverables.
 #   usage: seed2_collect.sh <Cxx> <name> <demo command...>
 id=$1; name=$2; shift 2
-line=$(/verif/confirm2.sh /tmp/seed2/$id "$@")
+line=$(/verif/confirm2.sh ${SEEDDIR:-/tmp/seed2}/$id "$@")
 echo "$line"
 d=/verif/seeded/$name
 mkdir -p $d
-rsync -a --exclude target --exclude '*.log' --max-size=200k /tmp/seed2/$id/_out/ $d/
+rsync -a --exclude target --exclude '*.log' --max-size=200k ${SEEDDIR:-/tmp/seed2}/$id/_out/ $d/
 echo "$line" > $d/confirm.txt
 echo "$*" > $d/demo_cmd.txt
